@@ -220,6 +220,20 @@ func opConcStreamF(a []string) string {
 	if err != nil {
 		return "err " + errClass(err)
 	}
+	// history first: calls that FAIL before reading anything (valid and fill given for the same index) must leave the
+	// encoder's block pool in order for the concurrent callers that follow
+	for k := 0; k < 3; k++ {
+		set := encodedSet(d, p, L, 5)
+		valid := make([]io.Reader, d+p)
+		fill := make([]io.Writer, d+p)
+		for i := range valid {
+			valid[i] = bytes.NewReader(set[i])
+		}
+		fill[k%(d+p)] = io.Discard
+		if err := enc.Reconstruct(valid, fill); err == nil {
+			return "mismatch-accepted"
+		}
+	}
 	res := make([]string, n+1)
 	var wg, hw sync.WaitGroup
 	start := make(chan struct{})
